@@ -45,6 +45,11 @@ def make_grad(draw, gi, pi, t, shape, scale=1.0):
                           and most blocks see an exactly zero gradient); dense afterwards.
        draw["grad_scales"] (optional): per-step magnitudes, cycled - gradients far smaller / larger than the accumulated history
        (a step at 1e-10 after O(1) steps, a whole run at 1e-5 or 1e3): absolute thresholds hidden in the code show up here."""
+    if t in draw.get("zero_steps", ()):
+        # a step on which every gradient is PRESENT and exactly zero (a fully masked batch): weight decay, momentum and the decay
+        # of every moving average still act
+        gd0 = draw["groups"][gi].get("dtypes") if gi < len(draw["groups"]) else None
+        return torch.zeros(tuple(shape), dtype=DT[gd0[pi]] if gd0 else DT[draw["dtype"]])
     gen = torch.Generator().manual_seed(hash((draw["seed"], gi, pi, t)) % (2 ** 31))
     sc = draw.get("grad_scales")
     if sc:
